@@ -61,6 +61,79 @@ def warm_shape_cache():
         _real_attrs(kind)
 
 
+HISTORY = ("factory results (Vector.zero(), unit vectors, origin(), x_axis(), xy_plane() ...) used as constructor arguments of lines, planes, segments, half lines, polygons and a parallelepiped, each of which is then moved; "
+           "intersection / distance / angle / parallel / orthogonal / in / == / hash / length / area / volume queries on them; -Plane; set_eps and set_sig_figures changed and set back to their defaults")
+
+
+def benign_history():
+    """Every property is quantified over histories: before any obligation is generated the process runs this legitimate use of the public API once
+    (natively, before stubs are installed), so hidden state that survives a call - cached singletons, class-level attributes, memoised results - is in
+    the state a real program would leave it in.  An exception in here is not attributed to any property."""
+    g = G()
+    import importlib
+    try:
+        V_, P_ = g.Vector, g.Point
+        mv = V_(2, -1, 2)
+        objs = []
+        for i, mk in enumerate((g.Vector.zero, g.x_unit_vector, g.y_unit_vector, g.z_unit_vector)):
+            ln = g.Line(mk(), V_(1, 2, 2))
+            ln.move(mv)
+            objs.append(ln)
+            ln2 = g.Line(P_(1, 1, 1), mk() if i else V_(0, 1, 0))
+            ln2.move(mv)
+            objs.append(ln2)
+        o = g.origin()
+        o.move(mv)
+        for mk in (g.x_axis, g.y_axis, g.z_axis, g.xy_plane, g.yz_plane, g.xz_plane):
+            t = mk()
+            t.move(mv)
+            objs.append(t)
+        pl = g.Plane(g.origin(), g.z_unit_vector())
+        pl.move(V_(0, 0, 3))
+        npl = -pl
+        npl.move(V_(1, 0, 0))
+        objs += [pl, npl]
+        sg = g.Segment(g.origin(), g.x_unit_vector())
+        sg.move(mv)
+        hl = g.HalfLine(g.origin(), g.y_unit_vector())
+        hl.move(mv)
+        pg = g.ConvexPolygon((g.origin(), P_(1, 0, 0), P_(0, 1, 0)))
+        pg.move(mv)
+        box = g.Parallelepiped(g.origin(), g.x_unit_vector(), g.y_unit_vector(), g.z_unit_vector())
+        box.move(mv)
+        objs += [sg, hl, pg, box]
+        for a in objs:
+            for b in objs:
+                try:
+                    g.intersection(a, b)
+                    hash(a)
+                    a == b
+                except Exception:
+                    pass
+                for fn in (g.distance, g.angle, g.parallel, g.orthogonal):
+                    try:
+                        fn(a, b)
+                    except Exception:
+                        pass
+            try:
+                P_(2, -1, 2) in a
+            except Exception:
+                pass
+        for a in (sg, pg, box):
+            for q in ("length", "area", "volume"):
+                if hasattr(a, q):
+                    getattr(a, q)()
+        const = importlib.import_module("Geometry3D.utils.constant")
+        e0, s0 = const.get_eps(), const.get_sig_figures()
+        const.set_eps(1e-6)
+        const.set_sig_figures(6)
+        g.intersection(pl, box)
+        const.set_eps(e0)
+        const.set_sig_figures(s0)
+    except Exception:
+        pass
+
+
 def shape_guard(vc, kind, obj):
     """the operand builders below set the attributes by hand (so that the invariant, not the constructor, is the precondition).  If the
     real constructor now gives its instances other attributes (e.g. a new cached field), the builder is outdated: that is a limit of this
